@@ -863,6 +863,21 @@ class Interp:
                 except Exception as ex:
                     return [(Exc(type(ex).__name__, e), st)]
             return [(Unknown("call:%s" % f.attr), st)]
+        if isinstance(f, ast.Attribute) and isinstance(recv, Const) and type(recv.v) is list and f.attr in ("remove", "insert", "pop", "clear", "sort", "reverse") \
+                and not kw and isinstance(f.value, (ast.Name, ast.Attribute)):
+            key = f.value.id if isinstance(f.value, ast.Name) else self.attr_key(f.value)
+            if key is not None and key in st.env:
+                s2 = st.copy()
+                if all(isinstance(a, Const) for a in args):
+                    cur = list(recv.v)
+                    try:
+                        r_ = getattr(cur, f.attr)(*[a.v for a in args])
+                    except Exception as ex:
+                        return [(Exc(type(ex).__name__, e), st)]
+                    s2.env[key] = Const(cur)
+                    return [(Const(r_), s2)]
+                s2.env[key] = Unknown("list")
+                return [(Unknown("call:%s" % f.attr), s2)]
         if isinstance(f, ast.Attribute) and isinstance(recv, Const) and isinstance(recv.v, list) and f.attr in ("append", "extend") \
                 and len(args) == 1 and not kw and isinstance(f.value, (ast.Name, ast.Attribute)):
             # list building: the receiver variable gets a NEW constant (states of other paths keep theirs)
